@@ -2,6 +2,7 @@
     arithmetic of wire.StreamFrame (MaxDataLen / Length / MaybeSplitOffFrame). *)
 From Coq Require Import List ZArith Bool Lia.
 From V Require Import Gen.Params Lib.Hex Wire.Varint SendStream.Model.
+From V Require Wire.FramesStream Wire.FramesStreamProofs.
 Import ListNotations.
 Open Scope Z_scope.
 
@@ -95,6 +96,32 @@ Qed.
 Lemma ss_bufsize_small : ssMaxPacketBufferSize <= 16383.
 Proof. unfold ssMaxPacketBufferSize. lia. Qed.
 
+(** shrinkForLengthField (C08's model): what is known about it for every space *)
+Notation shrink := V.Wire.FramesStream.shrink_for_length_field.
+Lemma shrink_range space : 0 <= space -> 0 <= shrink space <= space.
+Proof.
+  intros H. destruct (Z.le_gt_cases space maxVarInt8) as [L|G].
+  - apply V.Wire.FramesStreamProofs.shrink_spec. lia.
+  - unfold V.Wire.FramesStream.shrink_for_length_field. cbn [V.Wire.FramesStream.shrink_loop].
+    replace (vlen space) with 0.
+    + destruct (0 <? space); cbn [andb]; [destruct (Z.ltb_spec space (0 - 1 + space)); lia|lia].
+    + unfold vlen, maxVarInt1, maxVarInt2, maxVarInt4 in *. unfold maxVarInt8 in G |- *.
+      repeat match goal with |- context [?a <=? ?b] => destruct (Z.leb_spec a b) end; lia.
+Qed.
+
+Lemma max_data_len_spec sid0 off maxSize :
+  let h := 1 + vlen sid0 + offLen off + 1 in
+  let r := max_data_len sid0 off maxSize in
+  (maxSize < h -> r = 0) /\
+  (h <= maxSize -> 0 <= r <= maxSize - h /\
+     (maxSize - h <= maxVarInt8 ->
+      vlen r - 1 + r <= maxSize - h /\ forall d, r < d <= maxSize - h -> maxSize - h < vlen d - 1 + d)).
+Proof.
+  cbn zeta. unfold max_data_len. destruct (Z.gtb_spec (1 + vlen sid0 + offLen off + 1) maxSize); split; try lia.
+  intros _. split; [apply shrink_range; lia|]. intros Hb.
+  apply V.Wire.FramesStreamProofs.shrink_spec. lia.
+Qed.
+
 (* when MaybeSplitOffFrame has to split, what fits is strictly shorter than the payload *)
 Lemma split_fits sid0 f maxSize :
   zlen (f_data f) <= 16383 ->
@@ -103,13 +130,24 @@ Lemma split_fits sid0 f maxSize :
   0 < max_data_len sid0 (f_off f) maxSize < zlen (f_data f).
 Proof.
   intros Hd Hs. rewrite Z.geb_leb in Hs. apply Z.leb_gt in Hs.
-  unfold frame_len in Hs. unfold max_data_len.
+  unfold frame_len in Hs.
+  pose proof (max_data_len_spec sid0 (f_off f) maxSize) as [A B]. cbn zeta in A, B.
   set (h := 1 + vlen sid0 + offLen (f_off f)) in *.
+  set (r := max_data_len sid0 (f_off f) maxSize) in *.
   pose proof (zlen_nonneg (f_data f)) as Hn.
-  destruct (Z.gtb_spec (h + 1) maxSize) as [G|G]; [now left|].
-  destruct (vlen_cases (maxSize - (h + 1))) as [[? E]|[[? E]|[? E]]]; try lia;
-    destruct (vlen_cases _ Hn) as [[? E']|[[? E']|[? _]]]; try lia;
-    destruct (Z.eqb_spec (vlen (maxSize - (h + 1))) 1); lia.
+  destruct (Z.lt_ge_cases maxSize (h + 1)) as [L|G]; [left; apply A; lia|].
+  destruct (B ltac:(lia)) as [R1 R2].
+  assert (Hv : vlen (zlen (f_data f)) <= 2).
+  { destruct (vlen_cases _ Hn) as [[? E]|[[? E]|[? _]]]; lia. }
+  destruct (R2 ltac:(unfold maxVarInt8; lia)) as [R3 _].
+  destruct (Z.eq_dec r 0) as [E|E]; [now left|right]. split; [lia|].
+  destruct (Z.lt_ge_cases r (zlen (f_data f))) as [|Ge]; [assumption|exfalso].
+  assert (vlen (zlen (f_data f)) <= vlen r).
+  { destruct (vlen_cases _ Hn) as [[? E1]|[[? E1]|[? _]]]; try lia;
+    destruct (vlen_cases r ltac:(lia)) as [[? E2]|[[? E2]|[? [E2|[E2|E2]]]]]; try lia.
+    all: exfalso; unfold vlen, maxVarInt1, maxVarInt2, maxVarInt4, maxVarInt8 in E2;
+      repeat match type of E2 with context [?a <=? ?b] => destruct (Z.leb_spec a b) end; lia. }
+  lia.
 Qed.
 
 Lemma maybe_split_spec sid0 f maxSize new rest :
@@ -141,8 +179,7 @@ Qed.
 (* a frame returned by MaybeSplitOffFrame / built with MaxDataLen fits the budget *)
 Lemma max_data_len_nonneg sid0 off maxSize : 0 <= vlen sid0 -> 0 <= offLen off -> 0 <= max_data_len sid0 off maxSize.
 Proof.
-  intros. unfold max_data_len.
-  destruct (Z.gtb_spec (1 + vlen sid0 + offLen off + 1) maxSize); try lia.
-  destruct (Z.eqb_spec (vlen (maxSize - (1 + vlen sid0 + offLen off + 1))) 1); try lia.
-  destruct (vlen_cases (maxSize - (1 + vlen sid0 + offLen off + 1))) as [[? E]|[[? E]|[? E]]]; lia.
+  intros. pose proof (max_data_len_spec sid0 off maxSize) as [A B]. cbn zeta in A, B.
+  destruct (Z.lt_ge_cases maxSize (1 + vlen sid0 + offLen off + 1)) as [L|G]; [rewrite (A L); lia|].
+  apply (B G).
 Qed.
